@@ -76,6 +76,47 @@ impl CloseValue for ConstKey {
     }
 }
 
+/// A pre-aggregated value: writes `Repeated { total, occurrences: n }`; n = 0 is a window without
+/// samples and contributes no observation.
+#[derive(Clone, Copy, Debug)]
+pub struct Pre {
+    total: f64,
+    n: u64,
+}
+impl metrique_writer::Value for Pre {
+    fn write(&self, writer: impl ValueWriter) {
+        writer.metric(
+            [Observation::Repeated { total: self.total, occurrences: self.n }],
+            metrique_writer::Unit::None,
+            [],
+            metrique_writer::MetricFlags::empty(),
+        )
+    }
+}
+impl metrique_writer::MetricValue for Pre {
+    type Unit = metrique_writer::unit::None;
+}
+impl CloseValue for Pre {
+    type Closed = Pre;
+    fn close(self) -> Pre {
+        self
+    }
+}
+
+/// drop a merge-on-drop guard - normally, or by a panic unwinding through the scope that holds it
+/// (a panic is data: caught here); chosen per operation by the driver
+static UNWIND: std::sync::atomic::AtomicBool = std::sync::atomic::AtomicBool::new(false);
+fn drop_guard<G>(g: G) {
+    if UNWIND.load(std::sync::atomic::Ordering::Relaxed) {
+        let _ = std::panic::catch_unwind(std::panic::AssertUnwindSafe(move || {
+            let _held = g;
+            std::panic::panic_any("unwinding through a scope that holds a merge-on-drop guard");
+        }));
+    } else {
+        drop(g);
+    }
+}
+
 #[aggregate]
 #[metrics]
 pub struct In {
@@ -102,6 +143,13 @@ pub struct In {
     /// ... and through `Histogram::add_value` of a histogram of closed histograms
     #[aggregate(strategy = Histogram<HistogramClosed<Duration>, SortAndMerge>)]
     hv: Histogram<Duration, SortAndMerge>,
+    /// fed by a pre-aggregated value (Repeated with 0, 1 or 2 occurrences) through `Histogram::add_value`
+    #[aggregate(strategy = Histogram<Pre, SortAndMerge>)]
+    ps: Pre,
+    #[aggregate(strategy = Histogram<Pre>)]
+    pe: Pre,
+    #[aggregate(strategy = Distribution)]
+    pd: Pre,
 }
 
 /// By-reference merge for the tee (the macro's `#[aggregate(ref)]` needs Copy/Clone fields, a closed
@@ -121,6 +169,9 @@ impl MergeRef for InEntry {
             accum.he.add_value(Duration::from_secs_f64(ms / 1000.0));
         }
         accum.hv.add_value(&input.hv);
+        accum.ps.add_value(input.ps);
+        accum.pe.add_value(input.pe);
+        <Distribution as AggregateValue<Pre>>::insert(&mut accum.pd, input.pd);
     }
 }
 
@@ -178,6 +229,13 @@ pub struct InNk {
     /// ... and through `Histogram::add_value` of a histogram of closed histograms
     #[aggregate(strategy = Histogram<HistogramClosed<Duration>, SortAndMerge>)]
     hv: Histogram<Duration, SortAndMerge>,
+    /// fed by a pre-aggregated value (Repeated with 0, 1 or 2 occurrences) through `Histogram::add_value`
+    #[aggregate(strategy = Histogram<Pre, SortAndMerge>)]
+    ps: Pre,
+    #[aggregate(strategy = Histogram<Pre>)]
+    pe: Pre,
+    #[aggregate(strategy = Distribution)]
+    pd: Pre,
 }
 
 #[aggregate(direct)]
@@ -192,6 +250,13 @@ pub struct InDir {
     obs: Duration,
     #[aggregate(strategy = Distribution)]
     obs2: u64,
+    /// fed by a pre-aggregated value (Repeated with 0, 1 or 2 occurrences) through `Histogram::add_value`
+    #[aggregate(strategy = Histogram<Pre, SortAndMerge>)]
+    ps: Pre,
+    #[aggregate(strategy = Histogram<Pre>)]
+    pe: Pre,
+    #[aggregate(strategy = Distribution)]
+    pd: Pre,
 }
 
 #[metrics]
@@ -274,6 +339,12 @@ impl Conc {
         }
         out
     }
+    /// Aggregation.tla's PreN: 0, 1 or 2 observations of v's value; the total of an empty window is stale
+    fn pre(&self, v: u64) -> Pre {
+        let n = (2 * self.cur_id.get() + v) % 3;
+        let o = self.vals[v as usize - 1].2 as f64;
+        Pre { total: if n == 0 { o } else { o * n as f64 }, n }
+    }
     fn hist<S: metrique_aggregation::histogram::AggregationStrategy + Default>(&self, v: u64) -> Histogram<Duration, S> {
         let mut h = Histogram::<Duration, S>::default();
         for ms in self.hbag(v) {
@@ -307,15 +378,15 @@ impl Conc {
     fn input(&self, k: u64, v: u64) -> In {
         let (ck, name) = self.key(k);
         let (sum, last, obs, obs2) = self.vals[v as usize - 1];
-        In { ck, name, sum, last, obs: Duration::from_millis(obs), obs2, hs: self.hist(v), he: self.hist(v), hv: self.hist(v) }
+        In { ck, name, sum, last, obs: Duration::from_millis(obs), obs2, hs: self.hist(v), he: self.hist(v), hv: self.hist(v), ps: self.pre(v), pe: self.pre(v), pd: self.pre(v) }
     }
     fn input_nk(&self, v: u64) -> InNk {
         let (sum, last, obs, obs2) = self.vals[v as usize - 1];
-        InNk { sum, last, obs: Duration::from_millis(obs), obs2, hs: self.hist(v), he: self.hist(v), hv: self.hist(v) }
+        InNk { sum, last, obs: Duration::from_millis(obs), obs2, hs: self.hist(v), he: self.hist(v), hv: self.hist(v), ps: self.pre(v), pe: self.pre(v), pd: self.pre(v) }
     }
     fn input_dir(&self, v: u64) -> InDir {
         let (sum, last, obs, obs2) = self.vals[v as usize - 1];
-        InDir { sum, last, obs: Duration::from_millis(obs), obs2 }
+        InDir { sum, last, obs: Duration::from_millis(obs), obs2, ps: self.pre(v), pe: self.pre(v), pd: self.pre(v) }
     }
 }
 
@@ -330,6 +401,10 @@ struct Agg {
     hs: Vec<u64>,
     hv: Vec<u64>,
     he: u64,
+    /// fields fed by pre-aggregated values: exact (ps, pd) and number of observations (pe)
+    ps: Vec<u64>,
+    pd: Vec<u64>,
+    pe: u64,
 }
 
 fn metric_list(e: &TestEntry, name: &str) -> Vec<u64> {
@@ -351,6 +426,9 @@ fn agg_of_entry(e: &TestEntry) -> Agg {
         hs: metric_list(e, "hs"),
         hv: metric_list(e, "hv"),
         he: e.metrics.get("he").map(|m| m.num_observations()).unwrap_or(0),
+        ps: metric_list(e, "ps"),
+        pd: metric_list(e, "pd"),
+        pe: e.metrics.get("pe").map(|m| m.num_observations()).unwrap_or(0),
     }
 }
 
@@ -377,8 +455,15 @@ fn agg_of_model(c: &Conc, a: &Value) -> Agg {
         }
     }
     hs.sort();
+    let mut ps = Vec::new();
+    for (i, n) in a["pbag"].as_array().unwrap().iter().enumerate() {
+        for _ in 0..n.as_u64().unwrap() {
+            ps.push(c.vals[i].2);
+        }
+    }
+    ps.sort();
     let last = a["last"].as_u64().unwrap();
-    Agg { sum, last: if last == 0 { None } else { Some(c.vals[last as usize - 1].1) }, obs, obs2, he: hs.len() as u64, hv: hs.clone(), hs }
+    Agg { sum, last: if last == 0 { None } else { Some(c.vals[last as usize - 1].1) }, obs, obs2, he: hs.len() as u64, hv: hs.clone(), hs, pe: ps.len() as u64, pd: ps.clone(), ps }
 }
 
 fn fine_key_of_entry(e: &TestEntry) -> String {
@@ -466,7 +551,9 @@ fn compare_batch(
         let g = &gm[k][0];
         if g != e {
             let field = if g.sum != e.sum { "summed field" } else if g.last != e.last { "keep-last field" }
-                        else if g.obs != e.obs || g.obs2 != e.obs2 { "distribution field" } else { "distribution field fed by the inputs' own histograms" };
+                        else if g.obs != e.obs || g.obs2 != e.obs2 { "distribution field" }
+                        else if g.hs != e.hs || g.hv != e.hv || g.he != e.he { "distribution field fed by the inputs' own histograms" }
+                        else { "distribution field fed by pre-aggregated values (Repeated with 0, 1, 2 occurrences)" };
             mism.push(json!({"step": step, "sink": what, "what": format!("{field} of the aggregate for key {k}"),
                              "expected": format!("{e:?}"), "got": format!("{g:?}")}));
         }
@@ -509,7 +596,7 @@ impl Target for TKeyed {
     fn gmutate(&mut self, c: &Conc, g: u64, v: u64) {
         let x = self.held.get_mut(&g).unwrap();
         let n = c.input(1, v);
-        (x.sum, x.last, x.obs, x.obs2, x.hs, x.he, x.hv) = (n.sum, n.last, n.obs, n.obs2, n.hs, n.he, n.hv);
+        (x.sum, x.last, x.obs, x.obs2, x.hs, x.he, x.hv, x.ps, x.pe, x.pd) = (n.sum, n.last, n.obs, n.obs2, n.hs, n.he, n.hv, n.ps, n.pe, n.pd);
     }
     fn gdrop(&mut self, g: u64) {
         let x = self.held.remove(&g).unwrap();
@@ -531,7 +618,7 @@ struct TMutexEntry {
 }
 fn compare_all(c: &Conc, e: &TestEntry, st: &Value, what: &str, step: usize, mism: &mut Vec<Value>) {
     let model = st["all"].as_array().unwrap();
-    let mut exp = if model.is_empty() { Agg { sum: 0, last: None, obs: vec![], obs2: vec![], hs: vec![], hv: vec![], he: 0 } } else { agg_of_model(c, &model[0]) };
+    let mut exp = if model.is_empty() { Agg { sum: 0, last: None, obs: vec![], obs2: vec![], hs: vec![], hv: vec![], he: 0, ps: vec![], pd: vec![], pe: 0 } } else { agg_of_model(c, &model[0]) };
     let got = agg_of_entry(e);
     if what == "mutex_direct" {
         // #[aggregate(direct)] inputs cannot carry histograms (no AggregateValue<Histogram> impl)
@@ -539,7 +626,9 @@ fn compare_all(c: &Conc, e: &TestEntry, st: &Value, what: &str, step: usize, mis
     }
     if got != exp {
         let field = if got.sum != exp.sum { "summed field" } else if got.last != exp.last { "keep-last field" }
-                else if got.obs != exp.obs || got.obs2 != exp.obs2 { "distribution field" } else { "distribution field fed by the inputs' own histograms" };
+                else if got.obs != exp.obs || got.obs2 != exp.obs2 { "distribution field" }
+                else if got.hs != exp.hs || got.hv != exp.hv || got.he != exp.he { "distribution field fed by the inputs' own histograms" }
+                else { "distribution field fed by pre-aggregated values (Repeated with 0, 1, 2 occurrences)" };
         mism.push(json!({"step": step, "sink": what, "what": format!("{field} of the embedded aggregate"),
                          "expected": format!("{exp:?}"), "got": format!("{got:?}")}));
     }
@@ -550,7 +639,7 @@ impl Target for TMutexEntry {
     }
     fn merge(&mut self, c: &Conc, _k: u64, v: u64, via_guard: bool) {
         if via_guard {
-            drop(c.input_nk(v).close_and_merge(self.sink.clone()));
+            drop_guard(c.input_nk(v).close_and_merge(self.sink.clone()));
         } else {
             RootSink::merge(&self.sink, c.input_nk(v).close());
         }
@@ -562,10 +651,10 @@ impl Target for TMutexEntry {
         type G = metrique_aggregation::sink::CloseAndMergeOnDrop<InNk, MutexSink<Aggregate<InNk>>>;
         let gd = self.guards.get_mut(&g).unwrap().downcast_mut::<G>().unwrap();
         let n = c.input_nk(v);
-        (gd.sum, gd.last, gd.obs, gd.obs2, gd.hs, gd.he, gd.hv) = (n.sum, n.last, n.obs, n.obs2, n.hs, n.he, n.hv);
+        (gd.sum, gd.last, gd.obs, gd.obs2, gd.hs, gd.he, gd.hv, gd.ps, gd.pe, gd.pd) = (n.sum, n.last, n.obs, n.obs2, n.hs, n.he, n.hv, n.ps, n.pe, n.pd);
     }
     fn gdrop(&mut self, g: u64) {
-        drop(self.guards.remove(&g));
+        drop_guard(self.guards.remove(&g));
     }
     fn flush(&mut self, c: &Conc, st: &Value, step: usize, mism: &mut Vec<Value>) {
         self.tag += 1;
@@ -588,7 +677,7 @@ impl Target for TMutexDirect {
     }
     fn merge(&mut self, c: &Conc, _k: u64, v: u64, via_guard: bool) {
         if via_guard {
-            drop(c.input_dir(v).merge(self.sink.clone()));
+            drop_guard(c.input_dir(v).merge(self.sink.clone()));
         } else {
             RootSink::merge(&self.sink, c.input_dir(v));
         }
@@ -600,10 +689,10 @@ impl Target for TMutexDirect {
         type G = metrique_aggregation::sink::MergeOnDrop<InDir, MutexSink<Aggregate<InDir>>>;
         let gd = self.guards.get_mut(&g).unwrap().downcast_mut::<G>().unwrap();
         let n = c.input_dir(v);
-        (gd.sum, gd.last, gd.obs, gd.obs2) = (n.sum, n.last, n.obs, n.obs2);
+        (gd.sum, gd.last, gd.obs, gd.obs2, gd.ps, gd.pe, gd.pd) = (n.sum, n.last, n.obs, n.obs2, n.ps, n.pe, n.pd);
     }
     fn gdrop(&mut self, g: u64) {
-        drop(self.guards.remove(&g));
+        drop_guard(self.guards.remove(&g));
     }
     fn flush(&mut self, c: &Conc, st: &Value, step: usize, mism: &mut Vec<Value>) {
         self.tag += 1;
@@ -670,10 +759,10 @@ impl Target for TWorker {
         self.merges += 1;
         match self.d.as_mut().unwrap() {
             Driver::WorkerKeyed(w) => {
-                if via_guard { drop(c.input(k, v).close_and_merge(w.clone())) } else { w.send(c.input(k, v).close()) }
+                if via_guard { drop_guard(c.input(k, v).close_and_merge(w.clone())) } else { w.send(c.input(k, v).close()) }
             }
             Driver::WorkerTee(w) => {
-                if via_guard { drop(c.input(k, v).close_and_merge(w.clone())) } else { w.send(c.input(k, v).close()) }
+                if via_guard { drop_guard(c.input(k, v).close_and_merge(w.clone())) } else { w.send(c.input(k, v).close()) }
             }
             Driver::Tee(t) => t.merge(c.input(k, v).close()),
         }
@@ -690,15 +779,15 @@ impl Target for TWorker {
         match self.d.as_ref().unwrap() {
             Driver::WorkerKeyed(_) => {
                 let gd = self.guards.get_mut(&g).unwrap().downcast_mut::<WGuard<KeyedAggregator<In>>>().unwrap();
-                (gd.sum, gd.last, gd.obs, gd.obs2, gd.hs, gd.he, gd.hv) = (n.sum, n.last, n.obs, n.obs2, n.hs, n.he, n.hv);
+                (gd.sum, gd.last, gd.obs, gd.obs2, gd.hs, gd.he, gd.hv, gd.ps, gd.pe, gd.pd) = (n.sum, n.last, n.obs, n.obs2, n.hs, n.he, n.hv, n.ps, n.pe, n.pd);
             }
             Driver::WorkerTee(_) => {
                 let gd = self.guards.get_mut(&g).unwrap().downcast_mut::<WGuard<TeeInner>>().unwrap();
-                (gd.sum, gd.last, gd.obs, gd.obs2, gd.hs, gd.he, gd.hv) = (n.sum, n.last, n.obs, n.obs2, n.hs, n.he, n.hv);
+                (gd.sum, gd.last, gd.obs, gd.obs2, gd.hs, gd.he, gd.hv, gd.ps, gd.pe, gd.pd) = (n.sum, n.last, n.obs, n.obs2, n.hs, n.he, n.hv, n.ps, n.pe, n.pd);
             }
             Driver::Tee(_) => {
                 let x = self.held.get_mut(&g).unwrap();
-                (x.sum, x.last, x.obs, x.obs2, x.hs, x.he, x.hv) = (n.sum, n.last, n.obs, n.obs2, n.hs, n.he, n.hv);
+                (x.sum, x.last, x.obs, x.obs2, x.hs, x.he, x.hv, x.ps, x.pe, x.pd) = (n.sum, n.last, n.obs, n.obs2, n.hs, n.he, n.hv, n.ps, n.pe, n.pd);
             }
         }
     }
@@ -709,7 +798,7 @@ impl Target for TWorker {
                 t.merge(x.close());
             }
         } else {
-            drop(self.guards.remove(&g));
+            drop_guard(self.guards.remove(&g));
         }
     }
     fn flush(&mut self, c: &Conc, st: &Value, step: usize, mism: &mut Vec<Value>) {
@@ -804,6 +893,7 @@ fn cmd_replay(a: &HashMap<String, String>) {
         let steps = b["steps"].as_array().unwrap();
         let mut mism: Vec<Value> = Vec::new();
         let mut flushes = 0u64;
+        let mut unwound = 0u64;
         let mut stuck: Vec<&'static str> = Vec::new();
         // the two threaded arrangements alternate between behaviours (each spawns a thread)
         let skip_worker = if id % 2 == 0 { "worker" } else { "tee_worker" };
@@ -827,6 +917,12 @@ fn cmd_replay(a: &HashMap<String, String>) {
                     "GMutate" => conc.cur_id.set(guard_ids[&g]),
                     _ => {}
                 }
+                // a guard dropped by this operation goes normally or by unwinding (same Merge step in the model)
+                let unw = rng.random_range(0..3) == 0;
+                UNWIND.store(unw, std::sync::atomic::Ordering::Relaxed);
+                if unw && (st["op"] == "GDrop" || st["op"] == "Merge") {
+                    unwound += 1;
+                }
                 let r = util::catch(std::panic::AssertUnwindSafe(|| match st["op"].as_str().unwrap() {
                     "Merge" => t.merge(&conc, k, v, rng.random::<bool>()),
                     "GCreate" => t.gcreate(&conc, g, k, v),
@@ -846,6 +942,7 @@ fn cmd_replay(a: &HashMap<String, String>) {
                     break;
                 }
             }
+            UNWIND.store(false, std::sync::atomic::Ordering::Relaxed);
             // every history ends with a flush: what is still held must come out, exactly once
             if mism.len() == before && !b["final"].is_null() {
                 flushes += 1;
@@ -863,7 +960,7 @@ fn cmd_replay(a: &HashMap<String, String>) {
                                  "expected": "the worker emits what it holds and terminates", "got": "inner aggregator not dropped"}));
             }
         }
-        serde_json::to_writer(&mut out, &json!({"id": id, "mismatches": mism, "flushes": flushes, "key_mode": conc.key_mode, "kinds": use_kinds,
+        serde_json::to_writer(&mut out, &json!({"id": id, "mismatches": mism, "flushes": flushes, "guard_drops_by_unwinding": unwound, "key_mode": conc.key_mode, "kinds": use_kinds,
                                                 "worker_threads_still_running": stuck})).unwrap();
         out.write_all(b"\n").unwrap();
     }
@@ -1007,7 +1104,8 @@ fn run_scen(sc: &Scen) {
                 let mut he = Histogram::<Duration>::default();
                 he.add_value(Duration::from_millis(id));
                 let input = In { ck: ConstKey(3), name: format!("key-{k}"), sum: 1u64 << id, last: id, obs: Duration::from_millis(id), obs2: id,
-                                 hs: one(id), he, hv: one(id) };
+                                 hs: one(id), he, hv: one(id), ps: Pre { total: id as f64, n: 1 }, pe: Pre { total: id as f64, n: 1 },
+                                 pd: Pre { total: id as f64, n: 1 } };
                 trace::evi("SendStart", &[("p", pid), ("i", id as i64), ("k", k as i64)]);
                 if p.via_guard {
                     drop(input.close_and_merge(h.clone()));
